@@ -196,6 +196,38 @@ pub fn run(ctx: &mut Ctx) {
         let sp = Spelling::random(&mut r);
         from_text(ctx, &ast.render(&sp));
     }
+    // long alternative lists: written out (17..300 alternatives, some 3000) and produced by a
+    // set operation (a list against a partner, so that the result has hundreds of pieces)
+    ctx.stratum("L-long-alternative-lists", false);
+    let n = ctx.tier.n(60, 2_000);
+    for i in 0..n {
+        if !ctx.take() {
+            continue;
+        }
+        let mut r = Rng::for_case(ctx.seed, "C13-L", i);
+        let a = match long_alt_operand_sized(&mut r, &tiv, 1) {
+            Some(a) => a,
+            None => continue,
+        };
+        let b = long_partner(&mut r, &a, &tiv);
+        let done = on_small_stack(|| {
+            judge(ctx, &a.range, &a.text, true);
+            if let Some(b) = &b {
+                for (how, res) in [
+                    ("∩", guarded(|| a.range.intersect(&b.range))),
+                    ("∖", guarded(|| a.range.difference(&b.range))),
+                    ("∖'", guarded(|| if a.b.0.len() <= 300 { b.range.difference(&a.range) } else { None })),
+                ] {
+                    if let Ok(Some(x)) = res {
+                        judge(ctx, &x, &format!("({} {} {})", a.text, how, b.text), false);
+                    }
+                }
+            }
+        });
+        if done.is_none() {
+            ctx.inconclusive("small-stack thread ended without a result");
+        }
+    }
     ctx.stratum("S-set-operation-results", false);
     let n = ctx.tier.n(40_000, 4_000_000);
     for i in 0..n {
